@@ -118,6 +118,12 @@ func main() {
 		bases = append(bases, base{name, d, data})
 	}
 	add("custom-unmarshalers", []byte(grammar.CustomSpec))
+	// strings with line breaks (pattern, description, default, enum members, example) in every
+	// chomping situation: no, one and two trailing line breaks, several lines
+	add("multi-line-strings", []byte(`{"openapi":"3.0.3","info":{"title":"t","version":"1","description":"first line\nsecond line\n"},"paths":{
+ "/a":{"post":{"operationId":"a","description":"one\n\nthree","parameters":[{"name":"q","in":"query","schema":{"type":"string","pattern":"^a$\n","default":"x\ny"}},{"name":"e","in":"query","schema":{"type":"string","enum":["a\n","b","c\n\n"]}}],
+  "requestBody":{"content":{"application/json":{"schema":{"$ref":"#/components/schemas/S"},"example":{"t":"l1\nl2\n"}}}},"responses":{"200":{"description":"ok\n"}}}}},
+ "components":{"schemas":{"S":{"type":"object","description":"desc\n","properties":{"t":{"type":"string","pattern":"^b\n$","default":"d\n"},"u":{"type":"string","enum":["x\ny","z"],"default":"z"}}}}}}`))
 	// references that walk the raw document (deeper than a component, so they are resolved by JSON
 	// pointer over the node tree) through keys that look like numbers, booleans, null and dates
 	add("deep-pointer-references", []byte(`{"openapi":"3.0.3","info":{"title":"t","version":"1"},"paths":{
